@@ -161,6 +161,8 @@ def generic_src(n):
     deps = ', '.join(f'{p}={mark_src(m)}' for p, m in n.get('params', []))
     # build_node registers the class under class_name in the engine's module globals: keep it unique per program
     args = [n['generic_of'], f'class_name={("Generic" + nid + "_" + n.get("_uniq", ""))!r}']
+    if n.get('no_class_name'):
+        args = [n['generic_of']]      # several derivatives of one base then carry the same class name (Generic<Base>)
     if not n.get('inherit_name'):
         args.insert(1, f'node_name={nid!r}')
     if n.get('dep_default'):
